@@ -3,6 +3,7 @@ effect on the resource table, the frame of `step`. -/
 import AsphaltModel.Context
 import AsphaltProofs.Lemmas.Assoc
 import AsphaltProofs.Lemmas.ExitWith
+import AsphaltProofs.Lemmas.GetNow
 
 namespace Asphalt
 
@@ -317,12 +318,17 @@ theorem ctxCancelGet_resOK (cid : CtxId) (x : Ctx) (lid : TaskId) (next : Option
     · exact h
     · exact h
 
+theorem ctxGetNow_resOK (cid : CtxId) (x : Ctx) (k : Key) (opt : Bool) (h : ResOK x.res) :
+    ResOK (ctxGetNow cid x k opt).1.res :=
+  ctxGetNow_transfer (fun y => ResOK y.res) cid x k opt h (fun t => ctxGet_resOK cid x t k opt h)
+
 theorem runBodyOp_resOK (cid : CtxId) (cur : Option CtxId) (x : Ctx) (op : BodyOp) (h : ResOK x.res) :
     ResOK (runBodyOp cid cur x op).1.res := by
   cases op with
   | add types name v => exact ctxAdd_resOK _ _ _ h
   | addFactory types name fid => rw [runBodyOp, ctxAddFactory_res]; exact h
   | getNowait ty name opt => exact ctxGetNowait_resOK _ _ _ _ h
+  | get ty name opt => exact ctxGetNow_resOK _ _ _ _ h
   | current => exact h
 
 theorem runBody_resOK (cid : CtxId) (cur : Option CtxId) (x : Ctx) (ops : List BodyOp) (h : ResOK x.res) :
